@@ -234,12 +234,7 @@ type waitSiteA3 struct {
 // findWaitSiteA3: the (last) select of outer; when outer has none, the select of a function of the same package
 // (method, function or closure) that outer calls statically and that waits on every one of its paths.
 func findWaitSiteA3(outer *ssa.Function) *waitSiteA3 {
-	var sel *ssa.Select
-	allInstrs(outer, func(in ssa.Instruction) {
-		if s, ok := in.(*ssa.Select); ok {
-			sel = s
-		}
-	})
+	sel := waitSelectOf(outer)
 	if sel != nil {
 		return &waitSiteA3{outer: outer, sel: sel, fn: outer}
 	}
@@ -257,12 +252,7 @@ func findWaitSiteA3(outer *ssa.Function) *waitSiteA3 {
 		if cf == nil || len(cf.Blocks) == 0 || rootFn(cf).Pkg != rootFn(outer).Pkg {
 			return
 		}
-		var hs *ssa.Select
-		allInstrs(cf, func(in2 ssa.Instruction) {
-			if s, ok := in2.(*ssa.Select); ok {
-				hs = s
-			}
-		})
+		hs := waitSelectOf(cf)
 		if hs == nil {
 			return
 		}
@@ -273,6 +263,24 @@ func findWaitSiteA3(outer *ssa.Function) *waitSiteA3 {
 		return nil
 	}
 	return found
+}
+
+// waitSelectOf: the select of fn that waits – a blocking select is preferred to a non-blocking one (a `select { ...
+// default: }` that re-tests the stop channel after the wait is not the wait), the last of its kind is taken.
+func waitSelectOf(fn *ssa.Function) *ssa.Select {
+	var blocking, any *ssa.Select
+	allInstrs(fn, func(in ssa.Instruction) {
+		if s, ok := in.(*ssa.Select); ok {
+			any = s
+			if s.Blocking {
+				blocking = s
+			}
+		}
+	})
+	if blocking != nil {
+		return blocking
+	}
+	return any
 }
 
 // instr: the instruction of outer that stands for the wait.
